@@ -179,7 +179,7 @@ def check_pair(rec, relation, a, b, want_equal, kind, name, case):
         rec.violation("C14", f"{kind}:{relation}:comparison-raises", f"{name}: {type(e).__name__}: {e}", case)
         return
     if got != want_equal:
-        detail = name if want_equal else name.split("(")[0]
+        detail = name if want_equal and not name.startswith("edited") else name.split("(")[0]
         rec.violation("C14", f"{kind}:{relation}:{detail}:{'compares-unequal' if want_equal else 'compares-equal'}",
                       f"{name}: a == b is {got}, content is {'equal' if want_equal else 'different'}", case)
 
@@ -214,6 +214,30 @@ def shard_blocks(desc, rec):
         check_pair(rec, "roundtrip", b, a, True, kind, f"decode-of-own-encoding-reversed({tag})", case)
         b2, _ = lib.dec(kind, spec["format"], x)
         check_pair(rec, "roundtrip", b, b2, True, kind, f"two-decodes({tag})", case)
+        # equality after an in-place edit: a block that has been compared once and is then edited through its
+        # public attributes must compare unequal to its former self's decode, and equal to its own new decode
+        if i % 2 == 0:
+            from . import edits
+            a2 = lib.build(spec, variant)
+            bool(a2 == b)
+            r = None
+            try:
+                r = edits.inplace_edit(rng, a2, spec)
+            except Exception:
+                rec.count("c14:edit-refused")
+            if r is not None:
+                ename, spec2 = r
+                # only edits whose effect is unambiguous under any float tolerance are judged
+                if rc.spec_diff(spec, spec2) and ename in ("open-gap", "fill-gap", "label", "optical-name", "frequency",
+                                                           "append-item", "cell-clear"):
+                    ecase = {"driver": "equality", "spec": spec, "variant": variant, "edit": ename}
+                    check_pair(rec, "edited-in-place", a2, b, False, kind, f"edited({ename})", ecase)
+                    check_pair(rec, "edited-in-place", b, a2, False, kind, f"edited({ename})(reversed)", ecase)
+                    try:
+                        b3, _ = lib.dec(kind, spec2["format"], lib.enc(a2))
+                        check_pair(rec, "edited-in-place", a2, b3, True, kind, f"edited-then-roundtrip({ename})", ecase)
+                    except Exception:
+                        rec.count("c14:edited-roundtrip-failed")
         for name, ms in mutations(rng, spec):
             try:
                 mb = lib.build(ms, variant)
